@@ -35,7 +35,7 @@ for c in claims["checks"]:
      "quick_cmd": "./check %s" % pid,
      "thorough_cmd": "./check %s --tier thorough" % pid,
      "evidence_file": "/verif/evidence/%s.json" % pid,
-     "replay_cmd_template": "cat {path}",
+     "replay_cmd_template": "./replay {path}",
      "engine": "govc",
      "level_claimed": {"category": "proof", "text": c["text"], "design_ref": c.get("design_ref", "DESIGN.md section 11")},
      "level_note": c["note"],
